@@ -9,10 +9,12 @@ crypto/sha1 in the harness) classifies every case on the real code, so a defect 
 concrete failing input."""
 import hashlib
 import json
+import re
 
 from .. import common as C
 
 PROPS = ["theories/Props/C05.v"]
+NO_MODEL = ("trydecbig",)   # inputs too long for the extracted alias-level model (quadratic): textbook oracle only
 FIELDS = ["id", "kind", "a1", "a2", "a3", "a4", "a5", "cls", "r1", "r2", "direct", "detail", "seq"]
 
 ARGN = {
@@ -22,6 +24,8 @@ ARGN = {
     "encraw": ["new_nonce", "server_nonce", "msg"],
     "enc": ["new_nonce", "server_nonce", "payload"],
     "dec": ["new_nonce", "server_nonce", "ciphertext", "peer_payload", "peer_padding_len"],
+    "trydec": ["new_nonce", "server_nonce", "ciphertext", "what"],
+    "trydecbig": ["new_nonce", "server_nonce", "ciphertext", "what"],
     "aesige": ["msg_key", "auth_key", "decode"],
     "msgenc": ["msg", "auth_key"],
     "msgdec": ["ciphertext", "auth_key", "msg_key"],
@@ -30,7 +34,7 @@ ARGN = {
 FUNC = {
     "igeenc": "doAES256IGEencrypt", "igedec": "doAES256IGEdecrypt", "tk": "generateTempKeys",
     "encraw": "encryptMessageWithTempKeys", "enc": "EncryptMessageWithTempKeys (+ DecryptMessageWithTempKeys of the result)",
-    "dec": "DecryptMessageWithTempKeys", "aesige": "generateAESIGE", "msgenc": "Encrypt", "msgdec": "Decrypt",
+    "dec": "DecryptMessageWithTempKeys", "trydec": "TryDecryptMessageWithTempKeys", "trydecbig": "TryDecryptMessageWithTempKeys", "aesige": "generateAESIGE", "msgenc": "Encrypt", "msgdec": "Decrypt",
     "sha1": "crypto/sha1 vs Prim/Sha1.v",
 }
 
@@ -50,6 +54,8 @@ def describe(r):
     if kind == "dec":
         return "DecryptMessageWithTempKeys(peer ciphertext %d bytes for payload of %d bytes with %s padding bytes, new_nonce=%s, server_nonce=%s)" % (
             blen(r["a3"]), blen(r["a4"]) if r["a4"] != "?" else -1, r["a5"], r["a1"], r["a2"])
+    if kind in ("trydec", "trydecbig"):
+        return "TryDecryptMessageWithTempKeys(%d bytes: %s, new_nonce=%s, server_nonce=%s)" % (blen(r["a3"]), r["a4"], r["a1"], r["a2"])
     if kind == "msgenc":
         return "Encrypt(msg %d bytes, key %d bytes)" % (blen(r["a1"]), blen(r["a2"]))
     if kind == "msgdec":
@@ -110,6 +116,8 @@ def nontrivial_key(r):
         return (k, blen(r["a3"]), lz(r["a1"]), lz(r["a2"]))
     if k == "dec":
         return (k, blen(r["a3"]), r["a5"], lz(r["a1"]), lz(r["a2"]), r["a4"] == "?")
+    if k in ("trydec", "trydecbig"):
+        return (k, blen(r["a3"]), r["cls"], re.sub(r"\d+", "#", r["a4"]), lz(r["a1"]), lz(r["a2"]))
     if k == "aesige":
         return (k, blen(r["a1"]), blen(r["a2"]), r["a3"])
     return (k, blen(r["a1"]), blen(r["a2"]))
@@ -127,13 +135,38 @@ def run(ctx):
         if len(f) == 3 and f[0] == "stat":
             stats[f[1]] = int(f[2])
 
+    # precondition of the loop theorems (in and out do not overlap): static scan of the call sites
+    rc, sout = C.sh([hb, "scan", C.REPO], env=ctx.env(), timeout=300)
+    if rc != 0:
+        raise C.BuildError("harness scan failed: " + sout[-2000:])
+    sites = [l.split("\t") for l in sout.splitlines() if l.startswith("site\t")]
+    if not sites:
+        C.violation(ctx, "static:alias:no-call-sites", "the static scan found no call site of doAES256IGEencrypt/decrypt in internal/aes_ige: "
+                    "the precondition 'in and out do not overlap' is no longer checked", {"no_failing_input": True, "scan": sout[-1000:]})
+    for st in sites:
+        if st[4] != "ok":
+            C.violation(ctx, "static:alias:%s:%s" % (st[2], st[3]),
+                        "%s (%s) calls %s with buffers that may overlap: %s. With out == in the chaining register aliases the block that "
+                        "copy(out[i:], c.t) overwrites, so the result is not the IGE definition (precondition of C05_enc_is_ige / C05_dec_is_ige)"
+                        % (st[1], st[2], st[3], st[5]),
+                        {"no_failing_input": True, "call_site": st[1], "function": st[2], "callee": st[3], "detail": st[5],
+                         "how": "harness/root/cmd/c05 scan <repo root>"})
+
     pr = C.coq_props(PROPS)
     C.coq_obligation_violations(ctx, pr, "C05")
 
     coqchk = None
     if ctx.tier == "thorough" and not pr["failed"]:
+        cmd = ["coqchk", "-silent", "-o", "-Q", "theories", "MTV", "MTV.Props.C05"]
         with C.Lock("coq"):
-            rc, o = C.sh(["coqchk", "-silent", "-o", "-Q", "theories", "MTV", "MTV.Props.C05"], cwd=C.COQ, timeout=1800)
+            rc, o = C.sh(cmd, cwd=C.COQ, timeout=1800)
+            if rc != 0 or "* Axioms: <none>" not in o:
+                # a loaded machine (timeout, killed process, a .vo being rewritten by a concurrent build) is not a
+                # broken proof: rebuild the closure and run once more, alone under the lock, with a longer limit
+                C.log("coqchk rc=%d, retrying once: %s" % (rc, o[-200:].replace("\n", " ")))
+                C.sh(["make", "-f", "Makefile.coq", "-j4", "theories/Props/C05.vo"], cwd=C.COQ, timeout=1800)
+                rc, o = C.sh(cmd, cwd=C.COQ, timeout=3600)
+                ctx.notes.append("coqchk needed a second run")
         coqchk = "coqchk -silent -o MTV.Props.C05: rc=%d; %s" % (rc, "Axioms: <none>" if "* Axioms: <none>" in o else o[-400:])
         if rc != 0 or "* Axioms: <none>" not in o:
             C.violation(ctx, "coqchk:Props/C05", "coqchk does not accept the compiled proofs of C05: " + o[-600:],
@@ -188,6 +221,8 @@ def run(ctx):
                 seq_failed.add(sq)
             continue
         m = model.get(r["id"])
+        if r["kind"] in NO_MODEL:
+            m = impl
         if m != impl:
             disagreements += 1
             C.violation(ctx, key,
@@ -220,6 +255,11 @@ def run(ctx):
                  "(server_nonce) leading zero bytes and oversize values; Encrypt/DecryptMessageWithTempKeys for every payload length 0..80 (thorough 0..400): the client's own "
                  "encryption read back by the client and by a reference peer, and the reference peer's ciphertext with the aligning padding 0..15 (random, 00, ff); malformed "
                  "ciphertexts; generateAESIGE/Encrypt/Decrypt for lengths 0..80 and auth keys around the 128/136 limits; SHA-1 lengths around block boundaries; "
+                 "TryDecryptMessageWithTempKeys (the handshake's entry for network data) on valid peer ciphertexts, 0..48 random / zero bytes, every truncation of a valid "
+                 "ciphertext, damaged SHA-1 prefix / body / ciphertext bit, plaintext shorter than 20 bytes, prefix matching only after 16+ bytes removed, zero/short/oversize "
+                 "nonces, 64 KiB of garbage (textbook oracle only): never a panic, ok exactly when the prefix matches for a cut of 0..15 bytes; "
+                 "the *big.Int nonces are the caller's objects: kept across the calls of a sequence, value and Bits() words compared after every call, as is every input buffer; "
+                 "Encrypt/Decrypt/generateAESIGE are judged against an independent MTProto 1.0 key schedule written in the harness; "
                  "IGE inputs of 65,127,128,129,192,255,256,257,300 blocks (thorough up to 1025), wrapper payloads of 2027..4076 bytes and messages of 2032..4100 bytes; "
                  "about a third of the calls are repeated with every argument buffer handed over as a WINDOW frame[off:off+n] of a larger live array (non-zero guard "
                  "bytes before and after, spare capacity behind the window) and the whole arrays compared after the call - nothing but the inside of the output "
@@ -230,7 +270,7 @@ def run(ctx):
                  "model and the textbook IGE evaluated on the values at call time (ties C05_history_independent to the code). "
                  "distinct non-trivial = distinct (function, data length, buffer lengths, key/iv shape, leading-zero counts of the nonces, padding length)",
          "samples": samples, "input_distribution": stats, "disagreements": disagreements,
-         "direct_oracle_cases": direct_checked, "windowed_calls": stats.get("windowed_calls", 0), "call_sequences": len(seqs), "calls_in_sequences": sum(len(v) for v in seqs.values()), "coqchk": coqchk or "thorough tier only",
+         "direct_oracle_cases": direct_checked, "windowed_calls": stats.get("windowed_calls", 0), "call_sites_scanned": ["%s %s->%s %s" % (x[1], x[2], x[3], x[4]) for x in sites], "call_sequences": len(seqs), "calls_in_sequences": sum(len(v) for v in seqs.values()), "coqchk": coqchk or "thorough tier only",
          "projection": "result class ok/err/panic; bytes of the output buffer and of the caller's input buffer after the call (also after err/panic); "
                        "key and iv bytes; for windowed calls every byte of the caller's arrays around the slices passed in; never error texts or panic values"})
     return C.finish(ctx, "proof", cov, [
@@ -279,7 +319,7 @@ def replay(ctx, path):
     bad = len(f) < 4 or f[3] == "fail"
     if bad and len(f) > 4:
         print("direct oracle: %s" % f[4])
-    if not bad and f[3] == "none":
+    if not bad and f[3] == "none" and obj["kind"] not in NO_MODEL:
         # no direct oracle for this input: compare with the model again
         line = "\t".join(["r1", obj["kind"]] + list(obj["args"]) + f[:3] + ["none", "-"]) + "\n"
         p = ctx.work + "/replay_case.txt"
